@@ -10,6 +10,9 @@ uniqueness in every reachable state of the intern table.
 Property oracle on the real code (independent of the model): a canonical structural key `key(v)` (Python re-statement
 of `Equiv`): different keys must give different hashes, equal keys equal hashes, in this process, in subprocesses under
 other PYTHONHASHSEEDs and after pickling; interned values with equal keys must be one object while alive.
+For construction routes whose result the introspective `key` cannot judge (it reads `_args` / `bytes` *after* the real
+canonicalisation) the oracle is the generated *assignment* itself: see `c17_grid.py` (memory representation grid of
+`arraydata`, call-spelling grid of Immutable/Singleton signatures, keyword orders of `cache.function`).
 """
 import os, sys, io, gc, math, pickle, hashlib, subprocess, weakref, collections, dataclasses, inspect, types as pytypes, json, random
 import numpy
@@ -786,7 +789,10 @@ def _run(c, procs):
     c.rule = ('values: random nested builtin / numpy / nutils.types values (scalars from fixed adversarial pools, containers of depth <= 3, arrays of 13 dtypes '
               'and 13 shapes incl. views), each with structured near-miss variants (type confusion, regrouped nesting, container swap, dtype/shape/byte-order '
               'changes, class swap); real nutils evaluables/topologies/samples; a case is one value (digest correspondence) or one pair (collision/stability oracle); '
-              'non-trivial = not a bare scalar; distinct by canonical structural key')
+              'non-trivial = not a bare scalar; distinct by canonical structural key; systematic grids: arraydata over every b/i/u/f/c dtype x both byte orders x '
+              'memory layouts x adversarial values with byte-reversed siblings (case = one array, distinct by dtype/shape/layout/values); generated Immutable/Singleton '
+              'signatures (positional-or-keyword, defaults, *args, keyword-only, **kwargs) x assignments x call spellings incl. permuted keyword orders '
+              '(case = one spelling, non-trivial = at least two keywords); cache.function calls with permuted keywords')
     c.assumptions += ['SHA-1 is collision-free on the byte strings fed to it (theorems are a reduction to this)',
                       'Python float/complex repr and int->str are taken from CPython (model takes the strings as data)',
                       'supported domain excludes: same-named classes hashed by __name__ only (namedtuple/stdlib dataclass/plain type objects), '
@@ -1052,6 +1058,23 @@ def _run(c, procs):
         same_real = real_hash(x) == real_hash(y)
         c.count('documented-limit:%s:%s' % (name, 'collides' if same_real else 'distinct'))
         c.obligation('limit:' + name, True, 'exploration', 'real code %s; outside the supported domain (see notes/C17.md)' % ('collides' if same_real else 'does not collide'))
+
+    # NaN data in a non-native representation (float32, big-endian float64, complex64): the truncation test of arraydata compares with
+    # `numpy.equal` (nan != nan) and refuses it, while the native float64 array with the same NaN is accepted.  A refusal, not a wrong
+    # hash: recorded as a limit (no verdict); if it is accepted the value must be the canonical one.
+    nan_out = {}
+    for dt in ('<f4', '>f8' if sys.byteorder == 'little' else '<f8', '<c8'):
+        try:
+            adn = T.arraydata(numpy.array([float('nan'), 1.0], dtype=dt))
+            nan_out[dt] = 'accepted' if adn is T.arraydata(numpy.array([float('nan'), 1.0], dtype=complex if dt.endswith('c8') else float)) else 'accepted-other-object'
+        except ValueError:
+            nan_out[dt] = 'ValueError'
+        except Exception as e:
+            nan_out[dt] = 'exc:' + type(e).__name__
+        c.count('documented-limit:arraydata-nan-nonnative:%s:%s' % (dt, nan_out[dt]))
+    if 'accepted-other-object' in nan_out.values():
+        c.failing_input('arraydata-representation-dependent:nan', 'arraydata of NaN data in a non-native representation is accepted but is not the canonical object', dict(outcomes=nan_out))
+    c.obligation('limit:arraydata-nan-nonnative', True, 'exploration', 'real code: %r; refusal of NaN in non-native dtypes is outside the hash property (see notes/C17.md)' % nan_out)
 
     c.log('collision / stability oracle done')
     # ------------------------------------------------------------ stream 3: stability across processes / hash seeds, pickle, routes
